@@ -311,6 +311,20 @@ func c14Query(c *Ctx, sx *symx.Ctx, fn *ssa.Function) {
 				}
 				// len(matches) > 0 where matches = re.FindAllString(chain value, -1)
 				if isConst && k == 0 && ((op == token.GTR && t.failEdge == 0) || (op == token.LEQ && t.failEdge == 1)) {
+					// len(detector(chain value)) > 0, the detector a helper that lists the
+					// characters of a constant set found in its argument
+					if hc, ok := arg.(*ssa.Call); ok {
+						if h := hc.Common().StaticCallee(); h != nil && c.P.IsRepoFunc(h) && len(h.Blocks) > 0 && len(hc.Common().Args) == 1 {
+							if set, ok := c14DetectorHelper(h); ok {
+								if on, _ := onChain(hc.Common().Args[0]); on {
+									haveMeta = true
+									c14MetaSetOf(c, fk, hc, []rune(set))
+								} else {
+									r.Bad("O-1", key+":metachar-test-subject", c.P.Pos(hc.Pos()), "the metacharacter test is applied to a value that is not on the derivation chain of the result")
+								}
+							}
+						}
+					}
 					if fa, ok := arg.(*ssa.Call); ok && strings.HasPrefix(ssau.CallName(fa), "(*regexp.Regexp).Find") {
 						subject := fa.Common().Args[1]
 						on, after := onChain(subject)
@@ -381,7 +395,6 @@ var c14MetaDone = map[string]bool{}
 func c14MetaSet(c *Ctx, fk string, call *ssa.Call) {
 	r := c.R
 	key := fk + "#rejected-set"
-	want := []rune{'$', '&', ';', '<', '>', '|'}
 	var got []rune
 	okParse := false
 	switch n := ssau.CallName(call); {
@@ -439,12 +452,116 @@ func c14MetaSet(c *Ctx, fk string, call *ssa.Call) {
 			got = []rune(s)
 		}
 	}
-	sort.Slice(got, func(i, j int) bool { return got[i] < got[j] })
 	if !okParse {
 		r.Unknown("O-2", key, c.P.Pos(call.Pos()), "the rejected character set could not be extracted as a constant character class")
 		return
 	}
+	c14MetaSetOf(c, fk, call, got)
+}
+
+// c14MetaSetOf compares an extracted rejected set with the property's.
+func c14MetaSetOf(c *Ctx, fk string, call *ssa.Call, got []rune) {
+	r := c.R
+	key := fk + "#rejected-set"
+	want := []rune{'$', '&', ';', '<', '>', '|'}
+	got = append([]rune{}, got...)
+	sort.Slice(got, func(i, j int) bool { return got[i] < got[j] })
 	r.Check(string(got) == string(want), "O-2", key, c.P.Pos(call.Pos()), "rejected set is exactly {$ & ; < > |}", fmt.Sprintf("rejected set is %q, the property states %q", string(got), string(want)))
+}
+
+// c14DetectorHelper: h(s) returns a list that is non-empty whenever s contains
+// a character of a constant set K: it ranges over K and appends to its result
+// under strings.ContainsRune(s, c) (or IndexRune >= 0) for the loop's own c,
+// and an early empty return lies only behind !strings.ContainsAny(s, K).
+func c14DetectorHelper(h *ssa.Function) (string, bool) {
+	if len(h.Params) != 1 || h.Signature.Results().Len() != 1 {
+		return "", false
+	}
+	p := h.Params[0]
+	isP := func(v ssa.Value) bool { return v == ssa.Value(p) || ssau.ParamOf(v) == p }
+	set := ""
+	found := false
+	for _, l := range ssau.RangeLoops(h) {
+		if l.Next == nil || !l.Next.IsString {
+			continue
+		}
+		rg, ok := l.Next.Iter.(*ssa.Range)
+		if !ok {
+			continue
+		}
+		k, ok := ssau.ConstString(rg.X)
+		if !ok {
+			continue
+		}
+		for _, iff := range ssau.Ifs(h) {
+			if !l.InLoop(iff.Block()) {
+				continue
+			}
+			call, ok := iff.Cond.(*ssa.Call)
+			if !ok || ssau.CallName(call) != "strings.ContainsRune" || !isP(call.Common().Args[0]) {
+				continue
+			}
+			ex, ok := call.Common().Args[1].(*ssa.Extract)
+			if !ok || ex.Tuple != ssa.Value(l.Next) || ex.Index != 2 {
+				continue
+			}
+			// the true side appends
+			tb := iff.Block().Succs[0]
+			for _, b := range h.Blocks {
+				if b != tb && !tb.Dominates(b) {
+					continue
+				}
+				for _, in := range b.Instrs {
+					if ac, ok := in.(*ssa.Call); ok && ssau.CallName(ac) == "builtin.append" {
+						set, found = k, true
+					}
+				}
+			}
+		}
+	}
+	if !found {
+		return "", false
+	}
+	// empty returns only when the argument holds none of the set
+	cut := map[[2]int]bool{}
+	for _, iff := range ssau.Ifs(h) {
+		cond := iff.Cond
+		neg := false
+		if u, ok := cond.(*ssa.UnOp); ok && u.Op == token.NOT {
+			cond, neg = u.X, true
+		}
+		call, ok := cond.(*ssa.Call)
+		if !ok || ssau.CallName(call) != "strings.ContainsAny" || !isP(call.Common().Args[0]) {
+			continue
+		}
+		k2, ok := ssau.ConstString(call.Common().Args[1])
+		if !ok {
+			continue
+		}
+		covers := true
+		for _, c := range set {
+			if !strings.ContainsRune(k2, c) {
+				covers = false
+			}
+		}
+		if !covers {
+			continue
+		}
+		// the edge on which ContainsAny is false
+		side := 1
+		if neg {
+			side = 0
+		}
+		cut[[2]int{iff.Block().Index, side}] = true
+	}
+	for _, ret := range ssau.ReturnsOf(h) {
+		if ssau.IsNilConst(ret.Results[0]) {
+			if len(cut) == 0 || ssau.ReachableAvoidingEdges(h, ret.Block(), cut) {
+				return "", false
+			}
+		}
+	}
+	return set, true
 }
 
 // c14Strip checks the mapping closure of the control-character strip.
